@@ -174,6 +174,13 @@ func runC12(c *Ctx) {
 			q := chunkedReq(bucket, key, nil, len(payload))
 			q.BodyReader = &fragReader{data: stream, cuts: cuts, eofWithData: sc.eofD, emptyReads: sc.empty}
 			q.DeclLen = i64(int64(len(stream)))
+			// the announcement of the framing sent on two header lines: the upload may be
+			// refused, but if it is accepted what is stored is the payload, never the framing
+			doubled := caseNo%16 == 5
+			if doubled {
+				q.Header["X-Amz-Content-Sha256"] = []string{"STREAMING-AWS4-HMAC-SHA256-PAYLOAD", "STREAMING-AWS4-HMAC-SHA256-PAYLOAD"}
+				r.Count("announcement_on_two_lines", 1)
+			}
 			resp := s.Do(q)
 			r.Eval(1)
 			r.Count("valid_streams", 1)
@@ -184,6 +191,12 @@ func runC12(c *Ctx) {
 			if resp.Panic != nil {
 				r.Violation(sig("C12", backendClass(j.kind), "panic", trig), fmt.Sprintf("%s chunked upload of %d bytes (%s) panicked: %v", j.kind, len(payload), trig, resp.Panic), wit())
 				return
+			}
+			if resp.Status != 200 && doubled && resp.Status >= 400 && resp.Status < 500 {
+				return
+			}
+			if doubled {
+				trig += ",announced-twice"
 			}
 			if resp.Status != 200 {
 				r.Violation(sig("C12", backendClass(j.kind), "valid-stream-refused", trig), fmt.Sprintf("%s chunked upload of %d bytes (%s) refused: %s", j.kind, len(payload), trig, resp), wit())
